@@ -10,6 +10,7 @@ import (
 	"path/filepath"
 	"sort"
 	"strings"
+	"sync"
 
 	"golang.org/x/tools/go/packages"
 	"golang.org/x/tools/go/ssa"
@@ -32,6 +33,8 @@ type World struct {
 	loadSecs  float64
 	nFuncs    int
 	stdInitOK map[string]bool
+	fnOnce    sync.Once
+	fnIndex   map[string]*ssa.Function
 }
 
 type externalFn func(fr *frame, args []value) (value, bool)
@@ -196,4 +199,15 @@ func readOverlayDir(dir, repo string) (map[string][]byte, error) {
 		return nil
 	})
 	return ov, err
+}
+
+// funcByName finds a package-level function or method by its ssa String() name.
+func (w *World) funcByName(name string) *ssa.Function {
+	w.fnOnce.Do(func() {
+		w.fnIndex = map[string]*ssa.Function{}
+		for f := range ssautil.AllFunctions(w.prog) {
+			w.fnIndex[f.String()] = f
+		}
+	})
+	return w.fnIndex[name]
 }
